@@ -33,6 +33,25 @@ class C15(Prop):
             doc = M.enc_root(M.gen_file(rng, maxdepth=rng.choice([1, 2, 4]), n=rng.randint(1, 5)))
             muts.append({'op': 'parse', 'ast': M.mutate(rng, doc, rng.randint(1, 3)), 'mutated': True})
         yield 'mutations', muts
+        # an element the parser skips (unknown <class>) must be skipped whatever else is wrong with it: every field of
+        # a declaration retyped in turn, on an element retagged to something the parser does not know
+        skipped = []
+        import copy as _copy
+        for _ in range(n // 4):
+            doc = M.enc_root(M.gen_file(rng, maxdepth=rng.choice([1, 2]), n=rng.randint(1, 4)))
+            paths = [p for p in M.all_paths(doc) if p and p[-1] != '<class>' and len(p) >= 2 and p[-2] == 'elements'
+                     and isinstance(M.get_at(doc, p), dict) and '<class>' in M.get_at(doc, p)]
+            if not paths:
+                continue
+            p = rng.choice(paths)
+            el = M.get_at(doc, p)
+            for key in [k for k in el if k != '<class>']:
+                d2 = _copy.deepcopy(doc)
+                e2 = M.get_at(d2, p)
+                e2['<class>'] = rng.choice(['bogus', 'import', 'file-name', 'comment', 'Component'])
+                e2[key] = _copy.deepcopy(rng.choice(M.RETYPES))
+                skipped.append({'op': 'parse', 'ast': d2, 'mutated': True})
+        yield 'skipped-elements', skipped
         outs = []
         for _ in range(n // 5):
             ev = {'name': 'E', 'reply': rng.choice([['void'], ['bool'], ['A', 'B'], ['void', 'x']]),
